@@ -419,6 +419,22 @@ impl Observer for Shadow {
                         );
                     }
                 }
+                Insn::RepeatGr { lo, hi, repeat, .. } | Insn::RepeatNg { lo, hi, repeat, .. } if *hi > 1_000_000 => {
+                    // A counted loop without an upper bound is only emitted for bodies that must
+                    // consume input, so it cannot iterate more often than lo + |text| + 1 times
+                    // either; an (effectively) unbounded plain loop whose counter runs past that
+                    // is spinning on empty iterations.
+                    let rc = st.raw_saves().get(*repeat).copied().unwrap_or(0);
+                    if rc != usize::MAX && rc > lo.saturating_add(self.text_len).saturating_add(2) {
+                        self.fail(
+                            "no-progress",
+                            format!(
+                                "unbounded counted repeat at pc {} (lo {}, hi {}) is in iteration {} on a text of {} bytes: its body matches empty and nothing stops it, so this can only end in a spurious StackOverflow / BacktrackLimitExceeded",
+                                pc, lo, hi, rc, self.text_len
+                            ),
+                        );
+                    }
+                }
                 _ => {}
             }
             self.clock += 1;
